@@ -151,6 +151,10 @@ func (c *Config) Unpack(to interface{}, options ...Option) error {
 	if !isValid {
 		return raisePointerRequired(vTo)
 	}
+	if vTo.IsNil() {
+		// a typed nil pointer or nil map: there is nothing to unpack into
+		return raiseNil(ErrNilValue)
+	}
 
 	return reifyInto(opts, vTo, c)
 }
